@@ -13,6 +13,8 @@ import (
 	_ "github.com/klev-dev/klevdb/internal/zzverif/h_index"
 	_ "github.com/klev-dev/klevdb/internal/zzverif/h_smoke"
 	_ "github.com/klev-dev/klevdb/internal/zzverif/h_log"
+	_ "github.com/klev-dev/klevdb/internal/zzverif/h_codec"
+	_ "github.com/klev-dev/klevdb/internal/zzverif/h_recover"
 	"github.com/klev-dev/klevdb/internal/zzverif/vrt"
 )
 
